@@ -14,6 +14,46 @@ type ClientService struct {
 	Conn      *websocket.Conn
 	Mutex     sync.Mutex
 	Responses map[string]chan []byte
+	// ResponsesMtx guards Responses: the handlers of agent requests add and remove entries
+	// (several at the same moment) while the connection's reader looks answers up
+	ResponsesMtx sync.Mutex
+}
+
+// responseAdd registers the channel on which the answer to id is awaited
+func (c *ClientService) responseAdd(id string) chan []byte {
+	c.ResponsesMtx.Lock()
+	defer c.ResponsesMtx.Unlock()
+
+	if c.Responses == nil {
+		c.Responses = make(map[string]chan []byte)
+	}
+
+	// room for one answer: the reader never has to wait for the handler
+	var channel = make(chan []byte, 1)
+	c.Responses[id] = channel
+
+	return channel
+}
+
+// responseTake hands out the channel registered for id, once
+func (c *ClientService) responseTake(id string) (chan []byte, bool) {
+	c.ResponsesMtx.Lock()
+	defer c.ResponsesMtx.Unlock()
+
+	channel, ok := c.Responses[id]
+	if ok {
+		delete(c.Responses, id)
+	}
+
+	return channel, ok
+}
+
+// responseDrop forgets id
+func (c *ClientService) responseDrop(id string) {
+	c.ResponsesMtx.Lock()
+	defer c.ResponsesMtx.Unlock()
+
+	delete(c.Responses, id)
 }
 
 type Teamserver interface {
